@@ -102,6 +102,8 @@ def run_groups(groups, tier, seed, nproc=None, group_timeout=900):
                     p.join()
                     if os.path.exists(out):
                         results[i] = json.load(open(out))
+                        if os.environ.get("VERIF_PROGRESS"):
+                            sys.stderr.write("[group done] %s %.1fs errors=%d violations=%d\n" % (results[i].get("name"), results[i].get("wall_s", 0), len(results[i].get("errors", [])), len(results[i].get("violations", []))))
                     else:
                         results[i] = dict(name=getattr(g, "__name__", "?"), obligations=[], violations=[], errors=["group process died (exit code %s)" % p.exitcode], functions=[], bounds={}, stubs=[], assumptions=[], witnesses=0, stats={}, wall_s=time.time() - t0)
                     del running[i]
